@@ -729,6 +729,56 @@ def gen_sihelpers(repo):
     return "\n\n".join(out) + "\n"
 
 
+# ----------------------------------------------------------------------------------------------
+# backend_z3.py: the operator tables of the Z3 round trip (C09)
+# ----------------------------------------------------------------------------------------------
+
+@generator("Z3OpMap")
+def gen_z3opmap(repo):
+    """op_map (Z3 declaration kind -> claripy operation, used by _abstract_internal) as an association list, and for
+    every _op_raw_<op> whose body is a single Z3_mk_* call the name of that call (claripy operation -> Z3 constructor)."""
+    import re
+    path = os.path.join(repo, "claripy/backends/backend_z3.py")
+    src = open(path).read()
+    tree = ast.parse(src)
+    table = None
+    for n in tree.body:
+        if isinstance(n, ast.Assign) and len(n.targets) == 1 and isinstance(n.targets[0], ast.Name) and n.targets[0].id == "op_map":
+            if not isinstance(n.value, ast.Dict):
+                raise TranslateError("op_map is no longer a dict literal")
+            table = []
+            for k, v in zip(n.value.keys, n.value.values):
+                if not (isinstance(k, ast.Constant) and isinstance(k.value, str)):
+                    raise TranslateError("op_map key is not a string literal")
+                if isinstance(v, ast.Constant) and (v.value is None or isinstance(v.value, str)):
+                    table.append((k.value, v.value))
+                else:
+                    raise TranslateError("op_map value for %s is not a string literal or None" % k.value)
+    if table is None:
+        raise TranslateError("op_map not found")
+    cls = [n for n in tree.body if isinstance(n, ast.ClassDef) and n.name == "BackendZ3"]
+    if len(cls) != 1:
+        raise TranslateError("class BackendZ3 not found")
+    raw = []
+    for f in cls[0].body:
+        if isinstance(f, ast.FunctionDef) and f.name.startswith("_op_raw_"):
+            body = ast.unparse(f)
+            mks = sorted(set(re.findall(r"Z3_mk_(\w+)", body)))
+            if len(mks) == 1 and len([st for st in f.body if not isinstance(st, ast.Expr)]) == 1:
+                raw.append((f.name[len("_op_raw_"):], mks[0]))
+    def q(x):
+        return "None" if x is None else 'Some "%s"' % x
+    out = ["(* GENERATED by tools/py2coq.py from claripy/backends/backend_z3.py (op_map and the _op_raw_ functions) -- do not edit *)",
+           "From Coq Require Import String List.", "Import ListNotations.", "Open Scope string_scope.", "",
+           "Definition op_map : list (string * option string) :=", "  ["]
+    out.append(";\n".join('   ("%s", %s)' % (k, q(v)) for k, v in table))
+    out += ["  ].", "", "(* claripy operation -> the Z3_mk_* constructor its _op_raw_ function calls *)",
+            "Definition op_raw_mk : list (string * string) :=", "  ["]
+    out.append(";\n".join('   ("%s", "%s")' % kv for kv in raw))
+    out += ["  ]."]
+    return "\n".join(out) + "\n"
+
+
 if __name__ == "__main__":
     import sys
     print(GENERATORS[sys.argv[1]](sys.argv[2] if len(sys.argv) > 2 else "/repo"))
